@@ -40,6 +40,9 @@ var pgKeyBuiltins = []string{"string", "int", "int8", "uint8", "byte", "rune", "
 // pgPrefix is inserted into generated import paths (v1 histories share one GOPATH)
 var pgPrefix = ""
 
+// pgAny lets non-generic programs spell the empty interface as `any` (v2 runs of C20)
+var pgAny = false
+
 func pgPath(i int) string { return fmt.Sprintf("ex.test/%sp%d", pgPrefix, i) }
 func pgName(i int) string { return fmt.Sprintf("p%d", i) }
 
@@ -125,6 +128,10 @@ func (pg *progGen) ty(from int, depth int, underRef bool, declIdx int) string {
 		pg.classes["func-type"] = true
 		return "func(" + strings.Join(ps, ", ") + ") (" + strings.Join(rs, ", ") + ")"
 	case 7:
+		if (pg.v2 || pgAny) && g.Chance(0.5) {
+			pg.classes["any-spelling"] = true
+			return "any"
+		}
 		pg.classes["empty-interface"] = true
 		return "interface{}"
 	default:
@@ -150,7 +157,8 @@ func (g *Gen) genProgram(v2 bool, npk int, depth int) ([]GenPkg, []string) {
 			ds = append(ds, decl{pgNamed{pkg: p, name: name, class: kind}, kind})
 		}
 		if v2 && g.Chance(0.7) {
-			ds = append(ds, decl{pgNamed{pkg: p, name: "G0", class: "generic"}, "generic"})
+			// "ZG0" sorts after its users: an instantiation is then walked before the declaration
+			ds = append(ds, decl{pgNamed{pkg: p, name: g.Pick([]string{"G0", "ZG0"}), class: "generic"}, "generic"})
 			pg.classes["generic"] = true
 		}
 		decls = append(decls, ds)
@@ -274,7 +282,12 @@ func (g *Gen) genProgram(v2 bool, npk int, depth int) ([]GenPkg, []string) {
 				case 0:
 					fmt.Fprintf(&b, "type %s *%s\n\n", d.n.name, pg.ty(p, 1, true, di))
 				case 1:
-					fmt.Fprintf(&b, "type %s [4]%s\n\n", d.n.name, g.Pick(pgBuiltins))
+					el := g.Pick(pgBuiltins)
+					if g.Chance(0.5) {
+						el = g.Pick([]string{"[4]float64", "*int", "[]string", "map[string]int", "[2]*int8", "chan int", "struct{ A int }", "func()"})
+						pg.classes["defined-array-of-composite"] = true
+					}
+					fmt.Fprintf(&b, "type %s [4]%s\n\n", d.n.name, el)
 				case 2:
 					fmt.Fprintf(&b, "type %s chan %s\n\n", d.n.name, pg.ty(p, 1, true, di))
 				default:
@@ -284,6 +297,10 @@ func (g *Gen) genProgram(v2 bool, npk int, depth int) ([]GenPkg, []string) {
 				pg.classes["defined-pointer-array-chan-func"] = true
 			case "generic":
 				fmt.Fprintf(&b, "type %s[T any] struct {\n\tV T\n\tP *T\n\tS []T\n}\n\n", d.n.name)
+				if g.Chance(0.6) {
+					fmt.Fprintf(&methods, "func (r %s[T]) Get() T { return r.V }\n\nfunc (r *%s[T]) Set(v T, n int) { r.V = v }\n\n", d.n.name, d.n.name)
+					pg.classes["generic-methods"] = true
+				}
 			}
 		}
 		// functions, variables, constants
@@ -295,11 +312,16 @@ func (g *Gen) genProgram(v2 bool, npk int, depth int) ([]GenPkg, []string) {
 			fmt.Fprintf(&b, "var V%d %s\n\n", i, pg.ty(p, 1, true, 99))
 			pg.classes["variables"] = true
 		}
-		consts := []string{"const C0 = 42", "const C1 string = \"a\\tb\"", "const C2 = \"long string value with spaces\"", "const C3 = 1.5", "const C4 = true", "const C5 int8 = -3", "const C6 = 'x'", "const C7 uint8 = 200"}
+		consts := []string{"const C0 = 42", "const C1 string = \"a\\tb\"", "const C2 = \"long string value with spaces\"", "const C3 = 1.5", "const C4 = true", "const C5 int8 = -3", "const C6 = 'x'", "const C7 uint8 = 200",
+			"const C8 = \"0123456789012345678901234567890123456789012345678901234567890123456789X\"",
+			"const C9 string = \"a string constant that is much longer than seventy-two characters, so that constant.Value.String() would abbreviate it ... and more\""}
 		for _, c := range consts {
 			if g.Chance(0.35) {
 				b.WriteString(c + "\n\n")
 				pg.classes["constants"] = true
+				if strings.HasPrefix(c, "const C8") || strings.HasPrefix(c, "const C9") {
+					pg.classes["long-string-constant"] = true
+				}
 			}
 		}
 		var imps []int
